@@ -60,6 +60,8 @@ type l4Case struct {
 	PreCtx string `json:"preCtx"`
 	// ExtraSets: the driver answers the query with further (empty) result sets
 	ExtraSets int `json:"extraSets"`
+	// FewCols: the result set has fewer columns than the statement has outputs
+	FewCols bool `json:"fewCols"`
 }
 
 func genL4(r *rng.R) *l4Case {
@@ -112,6 +114,9 @@ func genL4(r *rng.R) *l4Case {
 		if c.Ctx == "marker" && c.HasOutputs && r.Chance(1, 5) {
 			c.CancelAt = r.Intn(len(c.Calls))
 		}
+	}
+	if c.HasOutputs && r.Chance(1, 8) {
+		c.FewCols = true
 	}
 	return c
 }
@@ -237,6 +242,12 @@ func runL4Case(c *l4Case) (obs *l4Obs) {
 			a = "abc"
 		}
 		sc.Rows = append(sc.Rows, []driver.Value{a, fmt.Sprintf("r%d", i+1)})
+	}
+	if c.FewCols {
+		sc.Columns = sc.Columns[:1]
+		for i := range sc.Rows {
+			sc.Rows[i] = sc.Rows[i][:1]
+		}
 	}
 	if c.PrepareErr {
 		sc.Faults = append(sc.Faults, fakedrv.Fault{Kind: "prepare", N: 0, Err: inj(1)})
@@ -574,6 +585,12 @@ func runL4(args []string) {
 		}
 		if c.CancelAt >= 0 {
 			dist["fault:cancel-during"]++
+		}
+		if c.FewCols {
+			dist["fault:few-columns"]++
+		}
+		if c.TxEnd == "between" || c.TxEnd == "before-query" {
+			dist["tx:ended-"+c.TxEnd]++
 		}
 		caseJSON := map[string]any{"case": c, "replay": string(cb)}
 		if obs.Panic != "" {
